@@ -19,7 +19,11 @@
    -> the reader accepts d with the same structure): it needs the converse of every construct
    lemma of Proofs/EdifFileSound.v plus "declared before use" in [supported]; the first half of
    [C05_full] for UNSUPPORTED documents is false on the faithful model (open findings C05-K10,
-   K11, K13): [C05_full_refuted], from a computed witness, which is why [supported] excludes them.
+   K13): [C05_full_refuted], from a computed witness, which is why [supported] excludes them.
+   Repaired K7 / K11: net names containing * or ? are ordinary names (exact lookups; the model no
+   longer declines them); a bit given by several nets holds the pins of all of them and nothing
+   moves ([C05_multibit_assemble_all] without NoDup, [nets_ok] no longer asks for different
+   indices, the old refutation witness is the positive [C05_duplicate_bit_document_read]).
    Repaired reader defects (K14, K15, K16), now positive statements: an instance without viewRef and an
    array port of size < 1 are refused ([C05_instances_referenced_ports_nonempty], examples
    [C05_bare_instance_rejected], [C05_array_size_zero_rejected]); everything after the design construct
@@ -105,6 +109,17 @@ Theorem C05_multibit_assemble : forall P (bits : list (N * list P)) c,
 Proof. exact multibit_assemble. Qed.
 Print Assumptions C05_multibit_assemble.
 
+(* any bits at all - a bit may be given by several nets (repaired K11): bit i holds the pins of ALL
+   nets of bit i in file order, lower index and width are least bit and span *)
+Theorem C05_multibit_assemble_all : forall P (bits : list (N * list P)) c,
+  assemble bits = Some c ->
+     c_lower c = min_idx (idxs bits)
+  /\ N.of_nat (length (c_wires c)) = (max_idx (idxs bits) - min_idx (idxs bits) + 1)%N
+  /\ c_array c = true
+  /\ forall i, wire_of c i = gather i bits.
+Proof. exact multibit_assemble_all. Qed.
+Print Assumptions C05_multibit_assemble_all.
+
 Theorem C05_multibit_subset : forall P (full bits' rest : list (N * list P)) c,
   NoDup (idxs full) -> Permutation full (bits' ++ rest) -> assemble bits' = Some c ->
      c_lower c = min_idx (idxs bits')
@@ -142,10 +157,10 @@ Print Assumptions C05_bus_read_exists.
 Example C05_multibit_example : ltac:(let t := type of multibit_example in exact t).
 Proof. exact multibit_example. Qed.
 
-(* why NoDup is needed: a second net for the bit that is the cable's current lower index is
-   PREPENDED, shifting every other bit by one (seen on bundled float_demo.edf) *)
-Example C05_refuted_duplicate_lower_bit : ltac:(let t := type of multibit_duplicate_lower_shifts in exact t).
-Proof. exact multibit_duplicate_lower_shifts. Qed.
+(* the former refutation witness (K11, repaired; seen on bundled float_demo.edf): a second net for the bit
+   that is the cable's current lower index joins that bit - it used to be PREPENDED, shifting every bit *)
+Example C05_duplicate_lower_bit_joins : ltac:(let t := type of multibit_duplicate_lower_joins in exact t).
+Proof. exact multibit_duplicate_lower_joins. Qed.
 
 (* bits whose identifier starts with "&_" (and does not end in "_") are NOT merged *)
 Theorem C05_refuted_amp_bits : forall ident name i,
@@ -203,19 +218,24 @@ Qed.
 Print Assumptions C05_full_reader_sound.
 
 (* WITHOUT the restriction to supported documents the first half of C05_full is false on the
-   faithful model: the document [dup_doc] (bits x[0], x[1], then x[0] again) is accepted and its
-   result is not what it denotes; [supported] excludes exactly this shape (finding C05-K11) *)
+   faithful model: the document [k13_doc] (scalar net x, then bit x[0]) is accepted and its
+   result is not what it denotes; [supported] excludes exactly this shape (finding C05-K13) *)
 Theorem C05_full_refuted : ~ C05_full edif_file_reader.
 Proof.
-  intros [H _]. destruct (H dup_doc dup_res) as [Hd _].
-  - change (match elab_file dup_doc with Ok n => Some n | Err _ => None end = Some dup_res).
-    rewrite dup_accepted. reflexivity.
-  - exact (dup_not_denoted Hd).
+  intros [H _]. destruct (H k13_doc k13_res) as [Hd _].
+  - change (match elab_file k13_doc with Ok n => Some n | Err _ => None end = Some k13_res).
+    rewrite k13_accepted. reflexivity.
+  - exact (k13_not_denoted Hd).
 Qed.
 Print Assumptions C05_full_refuted.
 
-Example C05_refuting_document_is_unsupported : EdifFileDenote.supported dup_doc = false.
+Example C05_refuting_document_is_unsupported : EdifFileDenote.supported k13_doc = false.
 Proof. vm_compute. reflexivity. Qed.
+
+(* the former refuting document (K11, repaired: bits x[0], x[1], then x[0] again) is now supported and is
+   read as ONE cable x, lower index 0, wires of 2 pins and 1 pin *)
+Example C05_duplicate_bit_document_read : ltac:(let t := type of dup_doc_read_as_one_bus in exact t).
+Proof. exact dup_doc_read_as_one_bus. Qed.
 
 (* all documents: objects, references, pin designators and top are what the document declares; the
    cables of each cell are read_nets of the denoted nets *)
